@@ -629,6 +629,10 @@ class InterpolatableFunction(ABC):
         self._directEvaluateCount = 0
         self._directlyEvaluatedAt = []
 
+        if not self.hasInterpolation() and not evaluatedPointMax > evaluatedPointMin:
+            ## all evaluations so far were at one point: cannot build a table yet
+            return
+
         if self.hasInterpolation():
             appendPointCount = int(0.2 * self._initialInterpolationPointCount)
         else:
